@@ -31,6 +31,7 @@ type crun struct {
 	lastFault time.Duration
 	extra     map[string]func(op harness.Op, idx int) // property-specific op kinds
 	settled   func() bool                             // optional extra convergence predicate
+	mem       *memRig                                 // membership rig of this run, if any
 }
 
 var clusterComponents = map[string]string{
